@@ -223,7 +223,7 @@ PROPS["C18"] = {
 
 PROPS["C09"] = {
     "props_files": ["Props/C09.v"],
-    "go_tests": ["TestVerifPolicy"],
+    "go_tests": ["TestVerifPolicy", "TestVerifClimber"],
     "go_tests_root": ["TestVerifRootAdmission"],
     "level": "other",
     "rule": "policy correspondence as for C07 (the admission decision is part of every replayed Set); plus MEASUREMENTS on real caches through the public builders: "
